@@ -103,20 +103,16 @@ def parse(lexer):
 
 def parse_bare_block(lexer, toplevel=False):
     block = NodeBlock(lexer.getPosNext(), toplevel)
-    if lexer.peekn(1, "do", "keyword"):
-        expression = parse_block(lexer)
-    else:
-        expression = parse_statement(lexer, toplevel)
+    # a statement that begins with a block is an expression like any other:
+    # it may go on behind the block's end (`do 1 end + 1`)
+    expression = parse_statement(lexer, toplevel)
     if not lexer.hasNext():
         return expression
     block.add(expression)
     while lexer.matchIf(";", "interpunction"):
         if not lexer.hasNext():
             break
-        if lexer.peekn(1, "do", "keyword"):
-            expression = parse_block(lexer)
-        else:
-            expression = parse_statement(lexer, toplevel)
+        expression = parse_statement(lexer, toplevel)
         block.add(expression)
     if (
         len(block.expressions) == 1
